@@ -1,0 +1,48 @@
+//go:build verif
+
+// Verification hooks (build tag verif only): observation points for /verif trace recording.
+// With the tag off, verif_hook_off.go provides an empty verifHook and none of this is compiled.
+
+package framework
+
+import (
+	"github.com/NVIDIA/KAI-scheduler/pkg/scheduler/api/pod_info"
+)
+
+// VerifStatementHook, when set, is called at the linearization points of Statement:
+// after the state change of every virtual operation (evict, pipeline, allocate, unevict,
+// unpipeline, unallocate) and at the begin/end of Checkpoint, Rollback, Discard, Commit and
+// ConvertAllAllocatedToPipelined. The scheduling cycle is single-threaded.
+var VerifStatementHook func(s *Statement, ev string, task *pod_info.PodInfo, arg string)
+
+func verifHook(s *Statement, ev string, task *pod_info.PodInfo, arg string) {
+	if VerifStatementHook != nil {
+		VerifStatementHook(s, ev, task, arg)
+	}
+}
+
+// VerifOp is a read-only projection of one entry of the statement's operation log.
+type VerifOp struct {
+	Name   string
+	Task   *pod_info.PodInfo
+	Target int // undo: index of the undone operation; otherwise -1
+	Valid  bool
+}
+
+func (s *Statement) VerifSession() *Session { return s.ssn }
+
+func (s *Statement) VerifOps() []VerifOp {
+	ops := make([]VerifOp, 0, len(s.operations))
+	for i, op := range s.operations {
+		v := VerifOp{Name: op.Name(), Task: op.TaskInfo(), Target: -1, Valid: s.operationValid(i)}
+		if u, ok := op.(undoOperation); ok {
+			v.Target = u.operationIndex
+		}
+		ops = append(ops, v)
+	}
+	return ops
+}
+
+func (ssn *Session) VerifPlugins() map[string]Plugin { return ssn.plugins }
+
+func (ssn *Session) VerifEventHandlerCount() int { return len(ssn.eventHandlers) }
